@@ -152,12 +152,15 @@ def op_report(c):
                         f.write(c["text"])
                     games = cr.read_dict_from_file(c["path"])
                 res = cr.run_games(games)
+                # what the batch run produced, before the writer gets a chance to touch it
+                snap = copy.deepcopy(res)
                 cr.save_results_to_file(res, c["path"])
             files = sorted(os.listdir("outputs"))
             text = open(os.path.join("outputs", files[0])).read() if files else None
-            for v in res.values():
+            for v in list(res.values()) + list(snap.values()):
                 v.pop("total_time", None)
-            return {"ok": enc([[k, v] for k, v in res.items()]), "files": files, "text": text,
+            return {"ok": enc([[k, v] for k, v in snap.items()]), "files": files, "text": text,
+                    "writer_changed_results": res != snap,
                     "read": enc(games) if "text" in c else None}
         except Exception as e:   # noqa: BLE001
             return exc_info(e)
